@@ -172,7 +172,9 @@ func (b *Buffer) SetCleanerConfig(config CleanerConfig) error {
 	b.mutex.Lock()
 	defer b.mutex.Unlock()
 
-	b.cleaner = &config
+	// NOTE: b.cleaner itself is only ever assigned by ensure (which reads it without synchronisation), so the
+	// config is updated in place rather than replacing the pointer
+	*b.cleaner = config
 
 	return nil
 }
